@@ -60,9 +60,9 @@ Inductive variant : tri -> tri -> Prop :=
 
 Lemma variant_vol4 v t t' : variant t t' -> tria_vol4_raw Rops v t' = tria_vol4_raw Rops v t.
 Proof. induction 1; [reflexivity|rewrite vol4_rot; assumption|rewrite vol4_flip; assumption]. Qed.
-Lemma nondeg_NN v t : Rltb (tria_vol4_raw Rops v t) (eps52 Rops) = false -> tri_NN_of v t <> 0.
+Lemma nondeg_NN v t : 0 < tria_vol4_raw Rops v t -> tri_NN_of v t <> 0.
 Proof. destruct t as [[a b] c]. intros H. pose proof (tria_nondeg_NN v a b c H) as P. unfold tri_NN_of. cbn [tri_pts] in *. unfold tri_pts in *. lra. Qed.
-Lemma variant_energy v f g t t' : Rltb (tria_vol4_raw Rops v t) (eps52 Rops) = false -> variant t t' ->
+Lemma variant_energy v f g t t' : 0 < tria_vol4_raw Rops v t -> variant t t' ->
   tria_energy v f g t' = tria_energy v f g t.
 Proof.
   intros H V. induction V as [t|t t' V IH|t t' V IH]; [reflexivity| |].
